@@ -111,6 +111,41 @@ Arguments freduce {A}.
 Arguments fexpand {A}.
 
 (* ------------------------------------------------------------------ *)
+(* string-valued options of the anchored functions (ASCII codes).
+   convolve:      if mode == "full": ... elif mode == "same": ...      (exact match; anything else falls
+                  through and the function returns None)
+   _freq_filter:  if typ == "bp": ... else: _freq_vector(f, b, typ=typ)  (exact match)
+   _freq_vector:  typ.lower() in ["hp", "highpass"] -> filc ; in ["lp", "lowpass"] -> 1 - filc ;
+                  anything else returns None and the caller fails on it *)
+Fixpoint zs_eqb (a b : list Z) : bool :=
+  match a, b with
+  | [], [] => true
+  | x :: a', y :: b' => (x =? y) && zs_eqb a' b'
+  | _, _ => false
+  end.
+Definition lower_ascii (c : Z) : Z := if (65 <=? c) && (c <=? 90) then c + 32 else c.
+Definition s_full : list Z := [102; 117; 108; 108].
+Definition s_same : list Z := [115; 97; 109; 101].
+Definition s_bp : list Z := [98; 112].
+Definition s_hp : list Z := [104; 112].
+Definition s_lp : list Z := [108; 112].
+Definition s_highpass : list Z := [104; 105; 103; 104; 112; 97; 115; 115].
+Definition s_lowpass : list Z := [108; 111; 119; 112; 97; 115; 115].
+Inductive cmode := MFull | MSame | MOther.
+Definition mode_class (s : list Z) : cmode :=
+  if zs_eqb s s_full then MFull else if zs_eqb s s_same then MSame else MOther.
+Inductive ftyp := THp | TLp | TBp | TBad.
+Definition typ_class (s : list Z) : ftyp :=
+  if zs_eqb s s_bp then TBp
+  else let l := map lower_ascii s in
+       if zs_eqb l s_hp || zs_eqb l s_highpass then THp
+       else if zs_eqb l s_lp || zs_eqb l s_lowpass then TLp
+       else TBad.
+(* outcome of a Python call: a value, the value None, or an exception *)
+Inductive pyres (A : Type) := Ret (a : A) | RetNone | Raise.
+Arguments Ret {A}. Arguments RetNone {A}. Arguments Raise {A}.
+
+(* ------------------------------------------------------------------ *)
 (* Ring-generic part: sums, DFT, circular convolution, convolve, filters *)
 Section RingModel.
 Variable R : Type.
@@ -228,6 +263,34 @@ Definition freq_filter (conj : R -> R) (N : nat) (filc ts : list R) : option (li
   | Some H => Some (idft N (pmul (dft N ts) H))
   | None => None
   end.
+
+(* convolve(x, w, mode=<string>) as a whole: the padded size is computed first (IndexError beyond the
+   table), then the mode is dispatched; an unknown mode returns None *)
+Definition convolve_py (cc : nat -> list R -> list R -> list R) (mode : list Z) (x w : list R) : pyres (list R) :=
+  match convolve_full_with cc x w with
+  | None => Raise
+  | Some xw =>
+      match mode_class mode with
+      | MFull => Ret xw
+      | MSame => match convolve_same_with cc x w with Some s => Ret s | None => Raise end
+      | MOther => RetNone
+      end
+  end.
+
+(* _freq_filter(ts, si, b, typ=<string>): c1 = taper of b[0:2], c2 = taper of b[2:4] (bp only) *)
+Definition freq_filter_py (conj : R -> R) (N : nat) (typ : list Z) (c1 c2 ts : list R) : pyres (list R) :=
+  let run filc := match freq_filter conj N filc ts with Some y => Ret y | None => Raise end in
+  match typ_class typ with
+  | THp => run c1
+  | TLp => run (resp_lp c1)
+  | TBp => run (bp_resp c1 c2)
+  | TBad => Raise
+  end.
+
+(* dft(x, xscale=xs, kscale=ks): X[j] = sum_n x[n] om^(xs[n] * k_j)   (integer positions and bins,
+   exponent taken modulo N); xscale=None means xs = 0 .. N-1 *)
+Definition dft_xk (N : nat) (x : list R) (xs ks : list Z) : list R :=
+  map (fun k => rsum N (fun j => rmul (getr x j) (rpow om (bin_of N (nth j xs 0%Z * k))))) ks.
 End RingModel.
 
 (* ------------------------------------------------------------------ *)
